@@ -162,12 +162,15 @@ Doc == [
                                                    <<"MAX_METHANE_SCP_AS_PERCENT_KCALS_HUMANS", "100">>} \cup FeedBioCaps],
   scenario |-> [no_resilient_foods |-> {<<"ADD_SEAWEED", "False">>, <<"ADD_METHANE_SCP", "False">>, <<"ADD_CELLULOSIC_SUGAR", "False">>, <<"ADD_GREENHOUSES", "False">>, <<"OG_USE_BETTER_ROTATION", "False">>},
                 all_resilient_foods |-> {<<"ADD_SEAWEED", "True">>, <<"ADD_METHANE_SCP", "True">>, <<"ADD_CELLULOSIC_SUGAR", "True">>},
-                all_resilient_foods_and_more_area |-> {<<"ADD_SEAWEED", "True">>, <<"ADD_METHANE_SCP", "True">>, <<"ADD_CELLULOSIC_SUGAR", "True">>, <<"OG_USE_BETTER_ROTATION", "True">>},
+                all_resilient_foods_and_more_area |-> {<<"ADD_SEAWEED", "True">>, <<"ADD_METHANE_SCP", "True">>, <<"ADD_CELLULOSIC_SUGAR", "True">>, <<"OG_USE_BETTER_ROTATION", "True">>,
+                                                       \* (cropland grows to 72/39 of today's within three years)
+                                                       <<"RATIO_INCREASED_CROP_AREA", "1.8461538461538463">>, <<"NUMBER_YEARS_TAKES_TO_REACH_INCREASED_AREA", "3">>},
                 seaweed |-> {<<"ADD_SEAWEED", "True">>, <<"ADD_METHANE_SCP", "False">>, <<"ADD_CELLULOSIC_SUGAR", "False">>, <<"ADD_GREENHOUSES", "False">>, <<"OG_USE_BETTER_ROTATION", "False">>},
                 methane_scp |-> {<<"ADD_SEAWEED", "False">>, <<"ADD_METHANE_SCP", "True">>, <<"ADD_CELLULOSIC_SUGAR", "False">>, <<"ADD_GREENHOUSES", "False">>, <<"OG_USE_BETTER_ROTATION", "False">>},
                 cellulosic_sugar |-> {<<"ADD_SEAWEED", "False">>, <<"ADD_METHANE_SCP", "False">>, <<"ADD_CELLULOSIC_SUGAR", "True">>, <<"ADD_GREENHOUSES", "False">>, <<"OG_USE_BETTER_ROTATION", "False">>},
                 industrial_foods |-> {<<"ADD_SEAWEED", "False">>, <<"ADD_METHANE_SCP", "True">>, <<"ADD_CELLULOSIC_SUGAR", "True">>, <<"ADD_GREENHOUSES", "False">>, <<"OG_USE_BETTER_ROTATION", "False">>},
-                relocated_crops |-> {<<"ADD_SEAWEED", "False">>, <<"ADD_METHANE_SCP", "False">>, <<"ADD_CELLULOSIC_SUGAR", "False">>, <<"ADD_GREENHOUSES", "False">>, <<"OG_USE_BETTER_ROTATION", "True">>},
+                relocated_crops |-> {<<"ADD_SEAWEED", "False">>, <<"ADD_METHANE_SCP", "False">>, <<"ADD_CELLULOSIC_SUGAR", "False">>, <<"ADD_GREENHOUSES", "False">>, <<"OG_USE_BETTER_ROTATION", "True">>,
+                                     <<"RATIO_INCREASED_CROP_AREA", "1">>},
                 greenhouse |-> {<<"ADD_SEAWEED", "False">>, <<"ADD_METHANE_SCP", "False">>, <<"ADD_CELLULOSIC_SUGAR", "False">>, <<"ADD_GREENHOUSES", "True">>, <<"OG_USE_BETTER_ROTATION", "False">>}],
   \* ("row:<column>": one hundred times that column of the country's data row)
   waste |-> [zero |-> {<<"WASTE_RETAIL", "0">>} \cup {<<"WASTE_DISTRIBUTION." \o g, "0">> : g \in {"SUGAR", "CROPS", "MEAT", "MILK", "SEAFOOD", "SEAWEED"}},
